@@ -75,6 +75,43 @@ def e2e_calls(L):
             out.append((f"pinv({nm},{a})@b", lambda A=A, a=a: cola.linalg.pinv(A, algs[a]) @ b))
         for a in ADMITS["svd"]:
             out.append((f"svd({nm},{a})", lambda A=A, a=a: svd(A, 1, "LM", algs[a])))
+    out += large_calls()
+    return out
+
+
+def large_calls():
+    """The same entry points on operators above the 10^6-entry switch of the automatic choice (the hand-over to an
+    iterative algorithm happens inside the rule body: only an execution reaches it).  Tiny iteration caps: only the
+    resolution path matters, every exception other than a LookupError is ignored."""
+    import cola
+    from cola.linalg.algorithm_base import Auto
+    from cola.linalg.svd.svd import svd
+    from cola.linalg.trace.diagonal_estimation import Hutch
+    n = 1001
+    rng = np.random.RandomState(5)
+    M = np.eye(n) + 0.01 * rng.randn(n, n)
+    G = cola.ops.Dense(M)
+    S = cola.ops.Dense((M + M.T) / 2)
+    b = np.ones(n)
+    au = Auto(max_iters=2)
+    out = []
+    for nm, A in (("Dense1001", G), ("PSD(Dense1001)", cola.PSD(S)), ("SelfAdjoint(Dense1001)", cola.SelfAdjoint(S)),
+                  ("Sum1001", cola.ops.Sum(G, cola.ops.Diagonal(np.ones(n)))),
+                  ("Tridiagonal1001", cola.ops.Tridiagonal(np.ones(n - 1) * .1, np.ones(n) * 2, np.ones(n - 1) * .1))):
+        out += [(f"large inv({nm},Auto)@b", lambda A=A: cola.linalg.inv(A, au) @ b),
+                (f"large solve({nm})", lambda A=A: cola.linalg.solve(A, b, au)),
+                (f"large slogdet({nm},Auto,Hutch)", lambda A=A: cola.linalg.slogdet(A, au, Hutch(max_iters=1))),
+                (f"large logdet({nm},Auto,Hutch)", lambda A=A: cola.linalg.logdet(A, au, Hutch(max_iters=1))),
+                (f"large pinv({nm},Auto)@b", lambda A=A: cola.linalg.pinv(A, au) @ b),
+                (f"large eig({nm},2,LM,Auto)", lambda A=A: cola.linalg.eig(A, 2, "LM", au)),
+                (f"large eig({nm},1,LM,Auto)", lambda A=A: cola.linalg.eig(A, 1, "LM", au)),
+                (f"large eigmin({nm},Auto)", lambda A=A: cola.linalg.eigmin(A, au)),
+                (f"large svd({nm},2,LM,Auto)", lambda A=A: svd(A, 2, "LM", au)),
+                (f"large exp({nm},Auto)@b", lambda A=A: cola.linalg.exp(A, au) @ b),
+                (f"large sqrt({nm},Auto)@b", lambda A=A: cola.linalg.sqrt(A, au) @ b),
+                (f"large pow({nm},0.5,Auto)@b", lambda A=A: cola.linalg.pow(A, 0.5, au) @ b),
+                (f"large diag({nm},Auto(tol=1e-2))", lambda A=A: cola.linalg.diag(A, 0, Auto(tol=1e-2, max_iters=1))),
+                (f"large trace({nm},Auto(tol=1e-2))", lambda A=A: cola.linalg.trace(A, Auto(tol=1e-2, max_iters=1)))]
     return out
 
 
@@ -240,7 +277,7 @@ def run(tier):
         # (3) end-to-end traces
         calls = e2e_calls(L)
         if tier == "quick":
-            calls = calls[::3]
+            calls = calls[::3] + [c for c in calls if c[0].startswith("large ") and c not in calls[::3]]
         events, escapes = record_e2e(L, calls)
         for name, ex, msg in escapes:
             viol.append(Violation(PROP, "escape", name, {"exc": ex, "f": name.split("(")[0]}, f"{ex}: {msg}",
